@@ -2278,6 +2278,36 @@ theorem conc_terminal_overwritten :
       [.ready, .ready, .ready, .invalid, .invalid, .invalid, .valid] := by
   decide
 
+/-- **reread_stale_swap_inert**: in the code as written the compare-and-swap of `DB.UpdateOrder` is
+    taken once, against the record re-read a moment before: when another request has written the
+    order in between, the swap fails and the record stays as that request left it (the request is
+    answered 500). Retrying the swap with the caller's stale status would overwrite it. -/
+theorem reread_stale_swap_inert (g : G) (t : Th) (hold : g.cur ≠ t.old) :
+    (t.kind = .poll → t.pc = 2 → (thStep .reread g t).1 = g) ∧
+    (t.kind = .fin → t.pc = 3 → (thStep .reread g t).1 = g) := by
+  obtain ⟨kind, pc, loaded, old, mine⟩ := t
+  have hc : ∀ nu, (cas g old nu).1 = g := by
+    intro nu
+    have : g.cur ≠ old := hold
+    simp [cas, this]
+  constructor
+  · intro hk hp
+    simp only at hk hp
+    subst hk hp
+    exact hc _
+  · intro hk hp
+    simp only at hk hp
+    subst hk hp
+    exact hc _
+
+/-- the interleaving around the expiry in which this matters: the poll re-reads the ready order, the
+    finalization writes valid, the poll's swap fails; the order is valid when both have returned -/
+theorem conc_lost_swap_keeps_valid :
+    trace .reread { ths := [{ kind := .fin }, { kind := .poll }] } [0, 1, 1, 0, 0, 0, 1] =
+      [.ready, .ready, .ready, .ready, .ready, .valid, .valid] ∧
+    (exec .reread { ths := [{ kind := .fin }, { kind := .poll }] } [0, 1, 1, 0, 0, 0, 1]).g.cur = ⟨.valid, some 1⟩ := by
+  decide
+
 /-- a compare-and-swap against the caller's record alone does not stop the second certificate:
     it is stored before the order is written -/
 theorem original_still_double_issues :
@@ -2506,5 +2536,46 @@ theorem claim_one_certificate (ths : List Th) (h0 : ∀ t ∈ ths, t.pc = 0) (sc
 /-- the repair is not vacuous: a lone finalization still completes -/
 example : (exec .claim { ths := [{ kind := .fin }] } [0, 0, 0, 0]).g = { cur := ⟨.valid, some 1⟩, certs := 1, writes := 2 } := by decide
 example : (exec .claim { ths := [{ kind := .fin }, { kind := .fin }] } [0, 1, 0, 1, 0, 1, 0, 1]).g.certs = 1 := by decide
+
+/-! ### simultaneous responses to one challenge (observation, like the order interleavings) -/
+
+/-- **ch_stale_swap_inert** (every state, every response): the single compare-and-swap of
+    `DB.UpdateChallenge` is taken against the record re-read a moment before; when another request
+    has written the challenge in between, it fails and the record stays as that request left it
+    (the losing request is answered 500). A write that does not compare would overwrite it. -/
+theorem ch_stale_swap_inert (cur : ChRec) (t : ChTh) (hp : t.pc = 2) (hold : cur ≠ t.old) :
+    (chStep cur t).1 = cur := by
+  obtain ⟨v, pc, loaded, old⟩ := t
+  simp only at hp hold
+  subst hp
+  show (if cur = old then _ else cur) = cur
+  rw [if_neg hold]
+
+/-- the interleaving in which it matters: a response with a transient error re-reads the pending
+    challenge, a successful response writes valid, the first one's swap fails: valid stays -/
+theorem ch_lost_swap_keeps_valid :
+    chTrace { ths := [{ verdict := .retry }, { verdict := .ok }] } [0, 1, 0, 1, 1, 0] =
+      [.pending, .pending, .pending, .pending, .valid, .valid] ∧
+    (chExec { ths := [{ verdict := .retry }, { verdict := .ok }] } [0, 1, 0, 1, 1, 0]).cur = { status := .valid, err := false } := by
+  decide
+
+/-- **ch_terminal_overwritten** (the code as written, C19 material like `conc_terminal_overwritten`):
+    the re-read does not help a response that loaded the challenge while pending and re-reads it after
+    another response made it valid: its swap against the fresh record succeeds and writes its stale
+    status back, valid -> pending (transient error) or valid -> invalid (refused proof). -/
+theorem ch_terminal_overwritten :
+    chTrace { ths := [{ verdict := .retry }, { verdict := .ok }] } [0, 1, 1, 1, 0, 0] =
+      [.pending, .pending, .pending, .valid, .valid, .pending] ∧
+    chTrace { ths := [{ verdict := .reject }, { verdict := .ok }] } [0, 1, 1, 1, 0, 0] =
+      [.pending, .pending, .pending, .valid, .valid, .invalid] := by
+  decide
+
+/-- responses that arrive after the challenge has been finished do nothing -/
+theorem ch_finished_inert (cur : ChRec) (t : ChTh) (hp : t.pc = 0) (hs : cur.status ≠ .pending) :
+    (chStep cur t).1 = cur ∧ (chStep cur t).2.pc = 9 := by
+  obtain ⟨v, pc, loaded, old⟩ := t
+  simp only at hp
+  subst hp
+  simp [chStep, hs]
 
 end Verif.AcmeConc
